@@ -984,6 +984,12 @@ func doLine(line string) string {
 			return id + " BADCASE"
 		}
 		return doSyntax(id, t)
+	case "cyclic":
+		n, err := strconv.Atoi(x.list[2].atom)
+		if err != nil {
+			return id + " BADCASE"
+		}
+		return doCyclic(id, n)
 	case "deepnest":
 		// the sentence ((( ... x eq 1 ... ))) with N pairs of parentheses, built here (the text would be megabytes)
 		n, err := strconv.Atoi(x.list[2].atom)
